@@ -44,7 +44,7 @@ NF = len(FUNC_NAMES)
 # 6 on also the same code object / source / underlying function
 SIBLING = {0: 1, 1: 0, 2: 5, 5: 2, 3: 4, 4: 3, 6: 7, 7: 6, 8: 9, 9: 8, 10: 11, 11: 10,
            12: 13, 13: 12, 14: 15, 15: 14}
-MKKEYS = ['k0', 'k1', 'k2']            # keyword arguments of make()
+MKKEYS = ['k0', 'k1', 'k2', 'k3', 'k4']   # keyword arguments of make(); factories preset k0, k1 (k2)
 SUBKEYS = ['env', 'umask']             # subprocess arguments
 NSLOTS = {'use': 1, 'map': 2, 'make': 1, 'stats': 1, 'get': 1}
 USE_OPS = ('use', 'map', 'userun', 'wrap')
@@ -226,13 +226,25 @@ class World:
         soft = [self.ref(r) for r in mk['soft']]
         if any(d is None for d in deps + soft):
             return None
-        out = {MKKEYS[k]: f'v{v}' for k, v in mk['kwargs']}
+        # the SPELLING of a request (not part of its identity): order of the
+        # keywords (= order of mk['kwargs']), extra_args as a tuple, keywords
+        # before or after the other arguments, equal but not identical strings
+        tup, kw_last, fresh_str = mk.get('spell', [False, False, False])
+
+        def val(v):
+            return ''.join(['v', str(v)]) if fresh_str else f'v{v}'
+        out = {}
+        if not kw_last:
+            out.update((MKKEYS[k], val(v)) for k, v in mk['kwargs'])
         if mk['name'] is not None:
-            out['name'] = mk['name']
+            out['name'] = ''.join(list(mk['name'])) if fresh_str else mk['name']
         if mk['extra'] is not None:
-            out['extra_args'] = [f'v{v}' for v in mk['extra']]
+            extra = [val(v) for v in mk['extra']]
+            out['extra_args'] = tuple(extra) if tup else extra
         if mk['sub']:
             out['subprocess_args'] = dict(sub_value(k, v) for k, v in mk['sub'])
+        if kw_last:
+            out.update((MKKEYS[k], val(v)) for k, v in mk['kwargs'])
         if mk['deps'] or mk.get('deps_given'):
             out['deps'] = deps
         if mk['soft']:
@@ -1053,6 +1065,13 @@ def corpus():
               ['make', 0, mk(extra=[1], deps=[a])]]),
         case([['make', 0, mk(extra=[1], soft=[a])], ['make', 0, mk(extra=[1])]]),
         case([['make', 0, mk(extra=[1], sub=[[0, 1]])], ['make', 0, mk(extra=[1], sub=[[0, 2]])]]),
+        # identical requests spelled differently: keyword order, tuple / list, order of the dependencies
+        case([['make', 0, mk(extra=[1, 2], kwargs=[[3, 1], [4, 2]], deps=[a, b], sub=[[0, 1], [1, 18]])],
+              ['make', 0, dict(mk(extra=[1, 2], kwargs=[[4, 2], [3, 1]], deps=[b, a], sub=[[1, 18], [0, 1]]),
+                               spell=[True, True, True])],
+              ['userun', 0, mk(extra=[1], kwargs=[[3, 1], [4, 2]]), None, 0],
+              ['userun', 0, dict(mk(extra=[1], kwargs=[[4, 2], [3, 1]]), spell=[True, False, True]), None, 0]],
+             useruns=({'fac': 0, 'posts': [2]},)),
         # a user name hides the arguments
         case([['make', 0, mk(name='t', extra=[1])], ['make', 0, mk(name='t', extra=[2])],
               ['make', 0, mk(name='t', extra=[1])], ['make', 0, mk(name='t', kwargs=[[0, 3]], extra=[1])]]),
@@ -1120,7 +1139,10 @@ def gen_case(rng):
     def mk():
         return {'name': rng.choice([None, None, None, 't', 'u']),
                 'extra': rng.choice([None, [], [1], [1], [2], [1, 2], [2, 1]]),
-                'kwargs': rng.choice([[], [], [], [[0, 2]], [[0, 3]], [[1, 2]], [[2, 1]], [[0, 2], [1, 2]]]),
+                'kwargs': rng.choice([[], [], [], [[0, 2]], [[0, 3]], [[1, 2]], [[2, 1]], [[0, 2], [1, 2]],
+                                      [[3, 1], [4, 2]], [[4, 2], [3, 1]], [[2, 1], [3, 1]],
+                                      [[3, 1], [0, 2]], [[4, 1], [2, 0], [3, 2]]]),
+                'spell': [rng.random() < 0.3, rng.random() < 0.3, rng.random() < 0.3],
                 'sub': rng.choice([[], [], [], [[0, 1]], [[0, 2]], [[1, 18]], [[1, 18], [0, 1]]]),
                 'deps': [ref() for _ in range(rng.choice([0, 0, 0, 1, 1, 2]))],
                 'soft': [ref() for _ in range(rng.choice([0, 0, 0, 0, 1]))]}
@@ -1167,7 +1189,16 @@ def gen_case(rng):
             return op
         kind = op[0]
         if kind == 'use':
-            what = rng.randrange(7)
+            what = rng.randrange(9)
+            if what >= 7:
+                # the SAME request spelled differently: the keyword injections (distinct
+                # keywords) in another order among the positional ones, built another way
+                kws = [i for i in op[2] if i[2] is not None]
+                if len(set(i[2] for i in kws)) == len(kws):
+                    rng.shuffle(kws)
+                    slots = sorted(rng.sample(range(len(op[2])), len(kws)))
+                    pos = [i for i in op[2] if i[2] is None]
+                    op[2] = [kws.pop(0) if j in slots else pos.pop(0) for j in range(len(op[2]))]
             j = rng.randrange(len(op[2]))
             if what == 0:
                 op[1] = pick_f(rng, op[1])
@@ -1181,7 +1212,7 @@ def gen_case(rng):
                 op[3] = not op[3]
             elif what == 5:
                 op[4] = not op[4]
-            else:
+            elif what == 6:
                 rng.shuffle(op[2])
             op[5] = rng.choice(['stack', 'direct', 'using'])
         elif kind == 'map':
@@ -1207,6 +1238,17 @@ def gen_case(rng):
             op[5] = rng.random() < 0.2
         elif kind == 'get':
             op[1] = base_wrapper()
+        elif kind in ('make', 'userun') and rng.random() < 0.4:
+            # the SAME request spelled differently: keywords in another order,
+            # extra_args as a tuple, dependencies in another order, fresh strings
+            m = op[2]
+            rng.shuffle(m['kwargs'])
+            rng.shuffle(m['sub'])
+            rng.shuffle(m['deps'])
+            rng.shuffle(m['soft'])
+            old = m.get('spell', [False, False, False])
+            m['spell'] = [not old[0] if rng.random() < 0.6 else old[0], rng.random() < 0.5,
+                          rng.random() < 0.5]
         elif kind in ('make', 'userun'):
             m = op[2]
             what = rng.randrange(8)
@@ -1215,7 +1257,8 @@ def gen_case(rng):
             elif what == 1:
                 m['extra'] = rng.choice([None, [], [1], [2], [1, 2], [2, 1]])
             elif what == 2:
-                m['kwargs'] = rng.choice([[], [[0, 2]], [[0, 3]], [[1, 2]], [[2, 1]]])
+                m['kwargs'] = rng.choice([[], [[0, 2]], [[0, 3]], [[1, 2]], [[2, 1]], [[3, 1], [4, 2]],
+                                          [[4, 2], [3, 1]], [[3, 2], [4, 2]], [[2, 1], [3, 1]]])
             elif what == 3:
                 m['sub'] = rng.choice([[], [[0, 1]], [[0, 2]], [[1, 18]]])
             elif what == 4:
